@@ -5,7 +5,7 @@ NOT_APPLICABLE = {}
 
 CHECKS = {
     'C01': {
-        'harnesses': ['harness.queue'], 'lemmas': 'c01',
+        'harnesses': ['harness.queue', 'harness.line_jobs'], 'lemmas': 'c01',
         'text': 'Bounded model checking of the real Environment/Event queue: every bounded sequence of schedule / schedule-in-the-past / '
                 'pause / unpause / cancel / step / run operations, also issued from inside event actions, with symbolic assets, delays, '
                 'priorities, run lengths and free tie-break weights, is explored path-exhaustively; an online reference queue checks that '
@@ -102,7 +102,7 @@ CHECKS['C20'] = {
 }
 
 CHECKS.update({
-    'C04': {'harnesses': ['harness.line_jobs'],
+    'C04': {'harnesses': ['harness.line_jobs'], 'lemmas': 'c04',
             'text': _LINE + 'for every listed station-kind assignment, capacity and zero pattern the recorded entry instants of every part at '
                     'every station are compared with the blocking-after-service recurrence D(j,k) built as z3 max-terms over the symbolic '
                     'cycle times and delays; equality must be valid on every path, i.e. for every tie-break order.'},
